@@ -136,6 +136,8 @@ type interpreter struct {
 	hasFixedNow bool
 	windowNow   value
 	hasWindowNow bool
+	windowBase, windowSpan int64
+	windowEpoch int
 	fnCache map[*ssa.Function]*fnInfo
 }
 
